@@ -2,7 +2,7 @@
 
 Correspondence: the real ConstraintInfo.create / __post_init__ / transform_from_optimizer and
 _violates_constraint (direct calls on validated EnOptConfig objects, and end to end through an
-evaluator step with a tracker handler) are run on variable vectors, bound vectors over every
+evaluator step, an optimizer step and BasicOptimizer with 'last' and 'best' trackers) are run on variable vectors, bound vectors over every
 finite / -inf / +inf pattern, linear and non-linear constraints of all bound kinds, with and without
 scaling transforms; the nine reported arrays, their presence and the feasibility verdict are compared
 inside Coq with Model/ConstraintInfo.v (tolerance for reals; presence, infinities, the violation
@@ -28,18 +28,25 @@ EXHAUSTIVE = {"quick": True, "thorough": True}
 RULE = ("exhaustive: every assignment of the 7 per-variable bound kinds (-inf,-inf) (-inf,b) (-inf,+inf) (a,b) (a,a) "
         "(a,+inf) (+inf,+inf) to V <= 3 variables (399 patterns), each with sampled (quick) / all 5^V (thorough) positions of "
         "the point relative to the bounds (below, on lower, inside, on upper, above); plus sampled cases with V <= 8, linear "
-        "constraints (1-3 rows) and non-linear constraints (1-3) of all kinds, tolerances None/0/1e-10/dyadic with values "
-        "exactly tolerance away from a bound, variable scalers (scales and/or offsets) and non-linear constraint scalers, "
-        "a full-precision (53-bit) stream, missing function values, and end-to-end runs of an evaluator step with a tracker. "
+        "constraints (1-3 rows) and non-linear constraints (1-3) of all kinds (now and then (+inf,+inf) / (-inf,-inf)), "
+        "tolerances None/0/1e-10/dyadic/negative with values exactly tolerance away from a bound, variable scalers (scales "
+        "and/or offsets) and non-linear constraint scalers (each alone and together), the same object transformed twice, "
+        "a full-precision (53-bit) stream, missing function values; and end-to-end runs -- evaluator step, optimizer step "
+        "(scripted optimizer) and BasicOptimizer (configuration dict or validated EnOptConfig) -- that deliver 1-4 function "
+        "results as single vectors and 2-D batches over one or several evaluations, some without function values (failed "
+        "evaluation), to a 'last' and a 'best' tracker with that tolerance: every delivered result (optimizer-domain and "
+        "user-domain) is checked and the retained results are compared with the model's choice. "
         "Non-trivial = constraint info is produced and at least one reported violation is non-zero or a bound is infinite; "
         "distinct = distinct inputs.")
 ASSUMPTIONS = [
-    "variable, linear-constraint and non-linear constraint values are finite numbers (NaN function values are outside the property: a NaN difference compares false and is reported as violation 0)",
+    "variable, linear-constraint and non-linear constraint values are finite numbers (NaN function values are outside the property: a NaN difference compares false and is reported as violation 0); a failed evaluation yields a result without function values and without non-linear constraint differences",
     "scale factors of transforms are positive (C11's domain); scale 0 is rejected by the scaler's own division",
     "the non-linear constraint scaler is the diagonal scaler users write (tests/test_optimizer.py ConstraintScaler): bounds, values and differences multiplied/divided by per-constraint factors",
+    "reading of 'treated as feasible': the trackers apply the tolerance test to the result in the optimizer's domain (the transformed_results item, by design of ropt: that is where the optimizer enforces constraints); the user-domain violations of the retained result are those scaled by the variable / equation / constraint scales",
 ]
 TRUSTED = [
     "the harness builds the FunctionResults wrapper handed to _violates_constraint and reads VariableScaler._equation_scaling (private attribute) as an observation",
+    "the scripted optimizer plug-in and the evaluator of the end-to-end stream; BasicOptimizer._optimizer_context (private attribute) is used to register the plug-in and a raw FINISHED_EVALUATION observer",
 ]
 
 KINDS = ["nn", "nb", "free", "ab", "eq", "ap", "pp"]
@@ -129,7 +136,7 @@ def _rand_transform(rng, V, n_nl, force=False):
 
 def _sampled_case(rng, full=False, kind="direct"):
     V = rng.randint(1, 8 if kind == "direct" else 4)
-    tol = rng.choice([None, 0.0, 1e-10, 1e-10, 0.125, 1.0])
+    tol = rng.choice([None, 0.0, 1e-10, 1e-10, 0.125, 1.0] + ([-0.125] if kind == "direct" and rng.random() < 0.2 else []))
     val = (lambda lo, hi: rng.uniform(lo, hi)) if full else (lambda lo, hi: _dy(rng, lo, hi))
     lb, ub, x = [], [], []
     for _ in range(V):
@@ -155,7 +162,7 @@ def _sampled_case(rng, full=False, kind="direct"):
         llb, lub = [], []
         for r in A:
             ax = float(sum(Fraction(a) * Fraction(v) for a, v in zip(r, x)))
-            k = rng.choice(["nb", "ab", "eq", "ap", "free"])
+            k = rng.choice(["nb", "ab", "eq", "ap", "free"] + (["pp", "nn"] if kind == "direct" and rng.random() < 0.15 else []))
             d = rng.choice([0.0, 0.125, 1.0, tol or 0.5])
             w = rng.choice([0.25, 1.0])
             side = rng.choice([-1, 0, 1])        # value below / inside / above the row's bounds
@@ -169,6 +176,10 @@ def _sampled_case(rng, full=False, kind="direct"):
                 l, u = -INF, (ax - d if side > 0 else ax + d)
             elif k == "ap":
                 l, u = (ax + d if side < 0 else ax - d), INF
+            elif k == "pp":
+                l, u = INF, INF
+            elif k == "nn":
+                l, u = -INF, -INF
             else:
                 l, u = -INF, INF
             llb.append(l)
@@ -180,7 +191,7 @@ def _sampled_case(rng, full=False, kind="direct"):
         n = rng.randint(1, 3)
         c, nlb, nub = [], [], []
         for _ in range(n):
-            k = rng.choice(["nb", "ab", "eq", "ap", "free"])
+            k = rng.choice(["nb", "ab", "eq", "ap", "free"] + (["pp", "nn"] if kind == "direct" and rng.random() < 0.15 else []))
             l, u = _bounds_of(k, rng)
             c.append(_position(l, u, rng.choice([0, 1, 2, 2, 3, 4, 5, 6]), rng, tol))
             nlb.append(l)
@@ -192,15 +203,53 @@ def _sampled_case(rng, full=False, kind="direct"):
                  _tag="full" if full else ("plan" if kind == "plan" else "sampled"))
 
 
+def _plan_case(rng):
+    """End-to-end case: an evaluator step / optimizer step (scripted optimizer) / BasicOptimizer delivering one or more
+    function results (single vectors and 2-D batches, some with failed evaluations) to "last" and "best" trackers."""
+    c = _sampled_case(rng, kind="plan")
+    level = rng.choice(["evalstep", "evalstep", "optstep", "optstep", "basic"])
+    V = len(c["x"])
+    n_more = rng.choice([0, 1, 2, 2, 3])
+    pts = [list(c["x"])]
+    more = []
+    for _ in range(n_more):
+        for _try in range(20):
+            p = [_position(l, u, rng.choice([0, 1, 2, 2, 2, 3, 4, 5, 6]), rng, c["tol"]) for l, u in zip(c["lb"], c["ub"])]
+            if all(max(abs(a - b) for a, b in zip(p, q)) >= 0.0625 for q in pts):
+                break
+        else:
+            break
+        pts.append(p)
+        cv = None
+        if c["nl"] is not None:
+            cv = [_position(l, u, rng.choice([0, 1, 2, 2, 3, 4, 5, 6]), rng, c["tol"]) for l, u in zip(c["nl"]["lb"], c["nl"]["ub"])]
+        more.append({"x": p, "c": cv, "obj": _dy(rng, -2, 2, 4), "fail": rng.random() < 0.12})
+    n = len(pts)
+    if level == "evalstep":
+        calls = [list(range(n))]
+    else:                      # the first call is always the start vector alone; the others are split at random
+        calls, i = [[0]], 1
+        while i < n:
+            k = rng.randint(1, n - i)
+            calls.append(list(range(i, i + k)))
+            i += k
+    tol = c["tol"]
+    if level == "basic" and tol is None:
+        tol = rng.choice([0.0, 1e-10, 0.125])
+    c.update(level=level, more=more, calls=calls, obj0=_dy(rng, -2, 2, 4), fail0=rng.random() < 0.08,
+             nd2=rng.random() < 0.5, tol=tol, basic_cfg=rng.choice(["validated", "dict"]), _tag="plan-" + level)
+    return c
+
+
 def gen_cases(tier, rng):
     yield from _pattern_cases(tier, rng)
-    n_s, n_f, n_p = (2500, 150, 80) if tier == "quick" else (40000, 3000, 1500)
+    n_s, n_f, n_p = (2500, 150, 330) if tier == "quick" else (40000, 3000, 5000)
     for _ in range(n_s):
         yield _sampled_case(rng)
     for _ in range(n_f):
         yield _sampled_case(rng, full=True)
     for _ in range(n_p):
-        yield _sampled_case(rng, kind="plan")
+        yield _plan_case(rng)
     # create() asserts when constraint values are given but no non-linear constraints are configured
     for _ in range(5):
         c = _sampled_case(rng)
@@ -313,47 +362,136 @@ def _run_direct(case):
         eq = None if transforms.variables is None else getattr(transforms.variables, "_equation_scaling", None)
         obs["tr"] = {"eq": _fl(eq), "info_user": _info(ci_user),
                      "violates_user": bool(_violates_constraint(_wrap(ci_user, x, None), case["tol"]))}
+        # the same object transformed a second time, and the source object after both transformations
+        again = None if ci is None else ci.transform_from_optimizer(transforms)
+        obs["tr"]["again_same"] = _info(again) == obs["tr"]["info_user"]
+        obs["tr"]["source_unchanged"] = _info(ci) == obs["info"]
     return obs
+
+
+def _plan_points(case):
+    """User-domain points of an end-to-end case with their constraint values, objective and failure flag."""
+    nl = case["nl"]
+    pts = [{"x": case["x"], "c": None if nl is None else nl["c"], "obj": case.get("obj0", 0.0),
+            "fail": case.get("fail0", False)}]
+    return pts + list(case.get("more", []))
 
 
 def _run_plan(case):
     import numpy as np
+    from ropt.config.enopt import EnOptConfig
     from ropt.enums import EventType
     from ropt.evaluator import EvaluatorResult
-    from ropt.plan import OptimizerContext, Plan
+    from ropt.plan import BasicOptimizer, OptimizerContext, Plan
+    from ropt.plugins import PluginManager
+    from ropt.plugins.optimizer.base import Optimizer, OptimizerPlugin
     from ropt.plugins.plan._utils import _violates_constraint
+    from ropt.results import FunctionResults
     transforms = _make_transforms(case)
-    nl = case["nl"]
+    nl, level = case["nl"], case.get("level", "evalstep")
+    pts = _plan_points(case)
+    X = np.array([p["x"] for p in pts], dtype=float)
+    calls = case.get("calls", [[0]])
+    to_opt = (lambda a: a) if transforms is None or transforms.variables is None else transforms.variables.to_optimizer
 
     def evaluator(variables, context):
         n = variables.shape[0]
-        return EvaluatorResult(objectives=np.zeros((n, 1)),
-                               constraints=None if nl is None else np.tile(np.array(nl["c"], dtype=float), (n, 1)))
+        objs = np.zeros((n, 1))
+        cons = None if nl is None else np.zeros((n, len(nl["c"])))
+        for i in range(n):
+            k = int(np.argmin(np.max(np.abs(X - variables[i]), axis=1)))
+            objs[i, 0] = np.nan if pts[k]["fail"] else pts[k]["obj"]
+            if cons is not None:
+                cons[i] = pts[k]["c"]
+        return EvaluatorResult(objectives=objs, constraints=cons)
 
-    seen = {}
+    class Scripted(Optimizer):
+        def __init__(self, config, optimizer_callback):
+            self._cb = optimizer_callback
+
+        def start(self, initial_values):
+            self._cb(initial_values, return_functions=True, return_gradients=False)
+            for idx in calls[1:]:
+                y = to_opt(X[idx])
+                self._cb(y[0] if len(idx) == 1 and not case.get("nd2") else y, return_functions=True, return_gradients=False)
+
+        @property
+        def allow_nan(self):
+            return False
+
+        @property
+        def is_parallel(self):
+            return True
+
+    class ScriptedPlugin(OptimizerPlugin):
+        def create(self, config, optimizer_callback):
+            return Scripted(config, optimizer_callback)
+
+        def is_supported(self, method):
+            return method.lower() == "scripted"
+
+    user, opt, seen = [], [], {}
 
     def observer(event):
-        seen["results"] = event.data["results"]
-        seen["transformed"] = event.data.get("transformed_results", event.data["results"])
+        res = event.data["results"]
+        user.extend(res)
+        opt.extend(event.data.get("transformed_results", res))
         seen["config"] = event.config
 
-    context = OptimizerContext(evaluator=evaluator)
-    context.add_observer(EventType.FINISHED_EVALUATION, observer)
-    plan = Plan(context)
-    step = plan.add_step("evaluator")
-    tracker = plan.add_handler("tracker", what="last", constraint_tolerance=case["tol"], sources={step})
-    plan.run_step(step, config=_config_dict(case), transforms=transforms)
-    item, user = seen["transformed"][0], seen["results"][0]
-    kept = plan.get(tracker, "results")
-    c_opt = None if item.functions is None or item.functions.constraints is None else item.functions.constraints
-    obs = {"cfg": _cfg_obs(seen["config"]), "y": _fl(item.evaluations.variables), "c_opt": _fl(c_opt), "err": False,
-           "info": _info(item.constraint_info), "violates": kept is None, "tr": None,
-           "kept_is_user_result": kept is None or kept is user}
-    if transforms is not None:
-        eq = None if transforms.variables is None else getattr(transforms.variables, "_equation_scaling", None)
-        obs["tr"] = {"eq": _fl(eq), "info_user": _info(user.constraint_info),
-                     "violates_user": bool(_violates_constraint(user, case["tol"])),
-                     "x_user": _fl(user.evaluations.variables)}
+    cfg = _config_dict(case)
+    cfg["optimizer"] = {"method": "scripted"}
+    kept_last = kept_best = None
+    if level == "basic":
+        # the configuration is given as a dict, or validated beforehand with the transforms as context
+        if case.get("basic_cfg", "validated") == "validated":
+            cfg = EnOptConfig.model_validate(cfg, context=transforms)
+        bo = BasicOptimizer(cfg, evaluator, transforms=transforms, constraint_tolerance=case["tol"])
+        ctx = bo._optimizer_context            # noqa: SLF001  (no public way to add plug-ins / observers of raw events)
+        ctx.plugin_manager.add_plugin("optimizer", "scripted", ScriptedPlugin())
+        ctx.add_observer(EventType.FINISHED_EVALUATION, observer)
+        bo.run()
+        kept_best = bo.results
+        has_last, has_best = False, True
+    else:
+        pm = PluginManager()
+        pm.add_plugin("optimizer", "scripted", ScriptedPlugin())
+        context = OptimizerContext(evaluator=evaluator, plugin_manager=pm)
+        context.add_observer(EventType.FINISHED_EVALUATION, observer)
+        plan = Plan(context)
+        step = plan.add_step("evaluator" if level == "evalstep" else "optimizer")
+        t_last = plan.add_handler("tracker", what="last", constraint_tolerance=case["tol"], sources={step})
+        t_best = plan.add_handler("tracker", what="best", constraint_tolerance=case["tol"], sources={step})
+        kw = {}
+        if level == "evalstep" and len(pts) > 1:
+            kw["variables"] = to_opt(X)        # the step takes explicit vectors in the optimizer domain (C11 finding F11)
+        plan.run_step(step, config=cfg, transforms=transforms, **kw)
+        kept_last, kept_best = plan.get(t_last, "results"), plan.get(t_best, "results")
+        has_last, has_best = True, True
+
+    def index_of(obj):
+        if obj is None:
+            return None
+        hits = [i for i, r in enumerate(user) if r is obj]
+        return hits[0] if hits else -1
+
+    eq = None if transforms is None or transforms.variables is None else getattr(transforms.variables, "_equation_scaling", None)
+    items = []
+    for item, usr in zip(opt, user):
+        assert isinstance(item, FunctionResults)
+        f = item.functions
+        c_opt = None if f is None or f.constraints is None else f.constraints
+        it = {"y": _fl(item.evaluations.variables), "c_opt": _fl(c_opt), "info": _info(item.constraint_info),
+              "violates": bool(_violates_constraint(item, case["tol"])), "has_fun": f is not None,
+              "obj": None if f is None else float(f.weighted_objective), "tr": None}
+        if transforms is not None:
+            it["tr"] = {"eq": _fl(eq), "info_user": _info(usr.constraint_info),
+                        "violates_user": bool(_violates_constraint(usr, case["tol"])),
+                        "x_user": _fl(usr.evaluations.variables)}
+        items.append(it)
+    first = items[0]
+    obs = {"cfg": _cfg_obs(seen["config"]), "y": first["y"], "c_opt": first["c_opt"], "err": False, "info": first["info"],
+           "violates": first["violates"], "tr": first["tr"], "items": items, "has_last": has_last, "has_best": has_best,
+           "kept_last": index_of(kept_last), "kept_best": index_of(kept_best)}
     return obs
 
 
@@ -404,25 +542,46 @@ def _finite(vals):
 
 def _scale(case, obs):
     return max([1.0] + _finite([case["x"], case["lb"], case["ub"], case["lin"], case["nl"], case["tr"], obs["cfg"],
-                                obs["y"], obs["c_opt"]]))
+                                obs["y"], obs["c_opt"], case.get("more"), [(i["y"], i["c_opt"]) for i in obs.get("items", [])]]))
+
+
+def _rcase_term(case, obs, S, point, item):
+    """One function result: `item` = what the implementation reported for it, `point` = its user-domain inputs."""
+    oc = obs["cfg"]
+    cfg = _cfg_term(oc["lb"], oc["ub"], oc["lin"], oc["nl"])
+    trt = "None"
+    if item["tr"] is not None:
+        tr = case["tr"]
+        ucons = point["c"] if case["nl"] is not None and item["c_opt"] is not None else None
+        ucfg = _cfg_term(case["lb"], case["ub"], case["lin"], case["nl"])
+        trt = ("(Some (Build_trpart " + " ".join([
+            _opt(tr["scales"] if tr["var"] else None, cq.qs), _opt(item["tr"]["eq"], cq.qs), _opt(tr["nl_scales"], cq.qs),
+            _info_term(item["tr"]["info_user"]), cq.b(item["tr"]["violates_user"]), ucfg, cq.qs(point["x"]),
+            _opt(ucons, cq.qs)]) + "))")
+    return ("(Build_rcase " + " ".join([
+        cq.q(S), cfg, cq.qs(item["y"]), _opt(item["c_opt"], cq.qs), _opt(case["tol"], cq.q), cq.b(item.get("err", False)),
+        _info_term(item["info"]), cq.b(item["violates"]), trt]) + ")")
+
+
+def _onat(i):
+    return "None" if i is None else f"(Some {cq.nat(i)})"
 
 
 def coq_case(case, obs):
     S = _scale(case, obs)
-    oc = obs["cfg"]
-    cfg = _cfg_term(oc["lb"], oc["ub"], oc["lin"], oc["nl"])
-    trt = "None"
-    if obs["tr"] is not None:
-        tr = case["tr"]
-        ucons = case["nl"]["c"] if case["nl"] is not None and obs["c_opt"] is not None else None
-        ucfg = _cfg_term(case["lb"], case["ub"], case["lin"], case["nl"])
-        trt = ("(Some (Build_trpart " + " ".join([
-            _opt(tr["scales"] if tr["var"] else None, cq.qs), _opt(obs["tr"]["eq"], cq.qs), _opt(tr["nl_scales"], cq.qs),
-            _info_term(obs["tr"]["info_user"]), cq.b(obs["tr"]["violates_user"]), ucfg, cq.qs(case["x"]),
-            _opt(ucons, cq.qs)]) + "))")
-    return ("(Build_case " + " ".join([
-        cq.q(S), cfg, cq.qs(obs["y"]), _opt(obs["c_opt"], cq.qs), _opt(case["tol"], cq.q), cq.b(obs["err"]),
-        _info_term(obs["info"]), cq.b(obs["violates"]), trt]) + ")")
+    if case["kind"] != "plan":
+        main = {"y": obs["y"], "c_opt": obs["c_opt"], "info": obs["info"], "violates": obs["violates"], "tr": obs["tr"],
+                "err": obs["err"]}
+        point = {"x": case["x"], "c": None if case["nl"] is None else case["nl"]["c"]}
+        return f"(Build_case {_rcase_term(case, obs, S, point, main)} [] None)"
+    pts, items = _plan_points(case), obs["items"]
+    terms = [_rcase_term(case, obs, S, p, it) for p, it in zip(pts, items)]
+    # an index the harness could not resolve (-1) is printed as an impossible index: the checker rejects it
+    fix = lambda i: len(items) + 7 if i == -1 else i  # noqa: E731
+    trk = ("(Some (Build_trk " + " ".join([
+        cq.lst(cq.b(it["has_fun"]) for it in items), cq.lst(_opt(it["obj"], cq.q) for it in items),
+        cq.b(obs["has_last"]), _onat(fix(obs["kept_last"])), cq.b(obs["has_best"]), _onat(fix(obs["kept_best"]))]) + "))")
+    return f"(Build_case {terms[0]} {cq.lst(terms[1:])} {trk})"
 
 
 # ---- the property evaluated directly on the implementation's output -----------------------
@@ -520,34 +679,73 @@ def _any_exceeds(info, tol):
                for v in (info.get(k) or []))
 
 
+def _oracle_result(case, obs, S, point, item, have_cons_cfg):
+    """Property predicate for one function result (optimizer-domain info, and the user-domain one when transformed)."""
+    oc = obs["cfg"]
+    v = _check_info(item["info"], oc["lb"], oc["ub"], oc["lin"], item["c_opt"],
+                    None if oc["nl"] is None else oc["nl"]["lb"], None if oc["nl"] is None else oc["nl"]["ub"],
+                    item["y"], S)
+    if v:
+        return v
+    if item["violates"] != _any_exceeds(item["info"], case["tol"]):
+        return {"clause": "feasible-iff-violations-within-tolerance",
+                "detail": {"verdict_infeasible": item["violates"], "tolerance": case["tol"], "info": item["info"]}}
+    if item["tr"] is not None:
+        nl = case["nl"]
+        have_c = nl is not None and item["c_opt"] is not None
+        v = _check_info(item["tr"]["info_user"], case["lb"], case["ub"], case["lin"],
+                        point["c"] if have_c else None, nl["lb"] if have_c else None, nl["ub"] if have_c else None,
+                        point["x"], S)
+        if v:
+            v["clause"] = "user-domain-" + v["clause"]
+            return v
+        if item["tr"]["violates_user"] != _any_exceeds(item["tr"]["info_user"], case["tol"]):
+            return {"clause": "user-domain-feasible-iff-violations-within-tolerance", "detail": item["tr"]}
+        if item["tr"].get("again_same") is False:
+            return {"clause": "transform-not-repeatable", "detail": "a second transform_from_optimizer of the same object differs"}
+        if item["tr"].get("source_unchanged") is False:
+            return {"clause": "transform-modified-its-source", "detail": "the optimizer-domain ConstraintInfo changed"}
+    return None
+
+
+def _expected_tracked(items, tol):
+    """(last, best) indices a tracker must retain: only results whose every violation is within the tolerance."""
+    last, best, best_obj = None, None, None
+    for i, it in enumerate(items):
+        if not it["has_fun"] or _any_exceeds(it["info"], tol):
+            continue
+        last = i
+        o = it["obj"]
+        if o is None or math.isnan(o):
+            continue
+        if best is None or o < best_obj:
+            best, best_obj = i, o
+    return last, best
+
+
 def oracle(case, obs):
     if obs["err"]:
         return None
     S = _scale(case, obs)
-    oc = obs["cfg"]
-    # (1) the info create() produced, against the configuration and values it was given
-    v = _check_info(obs["info"], oc["lb"], oc["ub"], oc["lin"], obs["c_opt"],
-                    None if oc["nl"] is None else oc["nl"]["lb"], None if oc["nl"] is None else oc["nl"]["ub"],
-                    obs["y"], S)
-    if v:
-        return v
-    if obs["violates"] != _any_exceeds(obs["info"], case["tol"]):
-        return {"clause": "feasible-iff-violations-within-tolerance",
-                "detail": {"verdict_infeasible": obs["violates"], "tolerance": case["tol"], "info": obs["info"]}}
-    # (2) what the user sees after the back-transformation, against the user's own bounds and values
-    if obs["tr"] is not None:
-        nl = case["nl"]
-        have_c = nl is not None and obs["c_opt"] is not None
-        v = _check_info(obs["tr"]["info_user"], case["lb"], case["ub"], case["lin"],
-                        nl["c"] if have_c else None, nl["lb"] if have_c else None, nl["ub"] if have_c else None,
-                        case["x"], S)
+    if case["kind"] != "plan":
+        main = {"y": obs["y"], "c_opt": obs["c_opt"], "info": obs["info"], "violates": obs["violates"], "tr": obs["tr"]}
+        point = {"x": case["x"], "c": None if case["nl"] is None else case["nl"]["c"]}
+        return _oracle_result(case, obs, S, point, main, True)
+    pts, items = _plan_points(case), obs["items"]
+    if len(items) > len(pts):
+        return {"clause": "more-results-than-points", "detail": len(items)}
+    for k, (p, it) in enumerate(zip(pts, items)):
+        v = _oracle_result(case, obs, S, p, it, True)
         if v:
-            v["clause"] = "user-domain-" + v["clause"]
+            v["detail"] = {"result": k, "detail": v.get("detail")}
             return v
-        if obs["tr"]["violates_user"] != _any_exceeds(obs["tr"]["info_user"], case["tol"]):
-            return {"clause": "user-domain-feasible-iff-violations-within-tolerance", "detail": obs["tr"]}
-    if case["kind"] == "plan" and not obs.get("kept_is_user_result", True):
-        return {"clause": "tracker-keeps-the-result", "detail": "tracker retained a different object"}
+    last, best = _expected_tracked(items, case["tol"])
+    if obs["has_last"] and obs["kept_last"] != last:
+        return {"clause": "tracker-last-retains-a-result-iff-its-violations-are-within-tolerance",
+                "detail": {"retained": obs["kept_last"], "expected": last, "tolerance": case["tol"]}}
+    if obs["has_best"] and obs["kept_best"] != best:
+        return {"clause": "tracker-best-retains-a-result-iff-its-violations-are-within-tolerance",
+                "detail": {"retained": obs["kept_best"], "expected": best, "tolerance": case["tol"]}}
     return None
 
 
@@ -564,7 +762,16 @@ def features(case, obs):
     fin = [math.isfinite(v) for v in case["lb"]], [math.isfinite(v) for v in case["ub"]]
     mixed = (not all(fin[0])) and (not all(fin[1])) and (any(fin[0]) or any(fin[1]))
     tr = case["tr"]
-    return {"kind": case["kind"], "V": len(case["x"]), "tag": case.get("_tag", "corpus"),
+    items = obs.get("items") or []
+    extra = {}
+    if case["kind"] == "plan":
+        extra = {"level": case.get("level", "evalstep"), "results": len(items),
+                 "results_without_functions": sum(1 for i in items if not i["has_fun"]),
+                 "infeasible_results": sum(1 for i in items if i["violates"]),
+                 "batched_call": any(len(c) > 1 for c in case.get("calls", [[0]])),
+                 "kept_last": "none" if obs.get("kept_last") is None else ("last" if obs["kept_last"] == len(items) - 1 else "earlier"),
+                 "kept_best": "none" if obs.get("kept_best") is None else ("first" if obs["kept_best"] == 0 else "later")}
+    return {**extra, "kind": case["kind"], "V": len(case["x"]), "tag": case.get("_tag", "corpus"),
             "linear": 0 if case["lin"] is None else len(case["lin"]["A"]),
             "nonlinear": 0 if case["nl"] is None else len(case["nl"]["c"]),
             "mixed_infinite_both_sides": mixed,
@@ -600,9 +807,17 @@ def shrink(case):
     if case["nl"] is not None and case["nl"]["lb"] is not None:
         yield {**case, "nl": None}
     if case["kind"] == "plan":
-        yield {**case, "kind": "direct"}
+        more = case.get("more", [])
+        if more:
+            for i in range(len(more)):
+                m2 = more[:i] + more[i + 1:]
+                n = len(m2) + 1
+                calls = [list(range(n))] if case.get("level", "evalstep") == "evalstep" else [[0]] + [[j] for j in range(1, n)]
+                yield {**case, "more": m2, "calls": calls}
+        else:
+            yield {**case, "kind": "direct"}
     for i in range(len(case["x"])):
-        if len(case["x"]) > 1:
+        if len(case["x"]) > 1 and not case.get("more"):
             c = _drop_var(case, i)
             if c["lin"] is None or all(any(a != 0 for a in r) for r in c["lin"]["A"]):
                 yield c
@@ -613,6 +828,8 @@ def search(rng, case):
         yield c
     for _ in range(600):
         yield _sampled_case(rng)
+    for _ in range(300):
+        yield _plan_case(rng)
 
 
 MANIFEST = {
@@ -621,15 +838,19 @@ MANIFEST = {
                    "variable bounds, linear constraints (A.x) and non-linear constraints, that every violation equals "
                    "max(lower - value, value - upper, 0), that bound information exists whenever one bound is finite so a value outside "
                    "a finite bound by more than the tolerance is always judged infeasible, that the feasibility verdict holds iff every "
-                   "violation is within the tolerance, and that the back-transformed differences and recomputed violations of a scaled "
+                   "violation is within the tolerance (for every tolerance, None included), that a 'last' / 'best' tracker retains "
+                   "exactly the last / the first minimal-objective delivered result whose violations are all within the tolerance and "
+                   "nothing iff there is none, and that the back-transformed differences and recomputed violations of a scaled "
                    "problem equal the user-domain ones; the model is tied to the code on every run by an in-Coq correspondence against "
-                   "the real ConstraintInfo.create / transform_from_optimizer / _violates_constraint and an evaluator step with a tracker, "
+                   "the real ConstraintInfo.create / transform_from_optimizer / _violates_constraint and against evaluator steps, "
+                   "optimizer steps and BasicOptimizer with trackers, "
                    "over all finite/-inf/+inf bound patterns for up to 3 variables plus sampled larger problems."),
     "level_note": ("Trusted: Coq kernel + VM; the Python driver that validates EnOptConfig objects, calls the real functions and prints "
                    "their outputs as exact rationals / ereal literals; NaN values are outside the model (assumption); the non-linear "
                    "constraint scaler is the user-written diagonal scaler of the test-suite; the equation scaling used by the linear "
-                   "back-transform is read from the scaler object (its formula is verified by C11). All theorems print 'Closed under "
-                   "the global context'."),
-    "technique": "Coq proof (case analysis over extended reals + list induction on an executable Gallina model) + in-Coq differential correspondence with the real ConstraintInfo code",
+                   "back-transform is read from the scaler object (its formula is verified by C11). The tracker model covers the results "
+                   "of one step started with an empty tracker (histories across steps are C12's subject); the tolerance test is applied "
+                   "to the optimizer-domain result, as the code documents. All theorems print 'Closed under the global context'."),
+    "technique": "Coq proof (case analysis over extended reals + list induction on an executable Gallina model) + in-Coq differential correspondence with the real ConstraintInfo code, the tolerance test and the plan trackers",
     "design_ref": "DESIGN.md section 4, C13",
 }
